@@ -299,7 +299,8 @@ def post(sim, h):
 
         # evaluation history on the composite a user holds after the run: repeated times,
         # coordinates rewritten in place in the same buffers, fresh buffers (cache keys)
-        if td:
+        if td or hasattr(A, "left"):
+            kept = []  # results the caller still holds: (array as returned, copy taken when it was returned, call)
             n = 40
             xi = scn["device"]["layer"]["xi"]
             sets = [(rs.uniform(-2, 2, n) * xi, rs.uniform(-2, 2, n) * xi) for _ in range(3)]
@@ -314,8 +315,11 @@ def post(sim, h):
                     args = (xb, yb, zb)
                 else:
                     args = (sets[k][0].copy(), sets[k][1].copy(), np.zeros(n))
+                if not td:
+                    tt = None
                 try:
-                    got = np.asarray(A(*args, t=tt), dtype=float)
+                    ret = A(*args, t=tt) if td else A(*args)
+                    got = np.asarray(ret, dtype=float)
                 except Exception as e:
                     V.append(Violation("evaluation-raised", f"evaluating the composite raised {type(e).__name__}: {str(e)[:80]}", **where))
                     break
@@ -323,8 +327,16 @@ def post(sim, h):
                 want = np.broadcast_to(want, got.shape) if want.ndim < got.ndim or want.shape != got.shape and want.size == 1 else want
                 sc = float(np.max(np.abs(want), initial=0.0)) + 1e-300
                 if got.shape != want.shape or max_err(got, want) / sc > 1e-12:
-                    V.append(Violation("evaluation-history", f"evaluation {j} of the history (points set {k}, t={tt:.4g}, {'same buffers rewritten in place' if inplace else 'fresh arrays'}) differs from the pointwise combination of the operands by {max_err(got, want) / sc:.3g} relative", call=j, inplace=inplace, **where))
+                    V.append(Violation("evaluation-history", f"evaluation {j} of the history (points set {k}, t={tt}, {'same buffers rewritten in place' if inplace else 'fresh arrays'}) differs from the pointwise combination of the operands by {max_err(got, want) / sc:.3g} relative", call=j, inplace=inplace, **where))
                     break
+                # a value handed to the caller is the caller's: later evaluations must not change it (a table
+                # of the drive over time, a finite difference in t)
+                stale = next((j0 for r0, c0, j0 in kept if isinstance(r0, np.ndarray) and not aeq(r0, c0)), None)
+                if stale is not None:
+                    V.append(Violation("result-overwritten", f"the array returned by evaluation {stale} of the history was changed by evaluation {j} of the same expression", call=j, **where))
+                    break
+                if isinstance(ret, np.ndarray):
+                    kept.append((ret, ret.copy(), j))
             for prm in walk_params(A, []):
                 prm._cache.clear()
         try:
